@@ -73,14 +73,22 @@ Proof.
                          do (v', ps) <- collect (path ++ [esc_tok ks]) v;
                          do (rest', ps') <- go rest;
                          Ok ((k, v') :: rest', (ps ++ ps')%list)
-                     | _ => do (rest', ps') <- go rest; Ok ((k, v) :: rest', ps')
+                     | _ =>
+                         match key_name k with
+                         | Some n =>
+                             do (v', ps) <- collect (path ++ [esc_tok n]) v;
+                             do (rest', ps') <- go rest;
+                             Ok ((k, v') :: rest', (ps ++ ps')%list)
+                         | None => do (rest', ps') <- go rest; Ok ((k, v) :: rest', ps') end
                      end
                  end) kvs = Ok (kvs, [])).
     { induction IH as [|[k v] r [Hk Hv] _ IHr]; [reflexivity|].
       cbn [forallb] in Ht. apply andb_true_iff in Ht as [Htx Htr]. apply andb_true_iff in Htx as [Htk Htv].
       cbn [fst snd] in Hk, Hv.
-      destruct k; try discriminate; try (rewrite (IHr Htr); reflexivity).
-      rewrite (Hv _ Htv). cbn [bind]. rewrite (IHr Htr). reflexivity. }
+      destruct k as [| b | l | ks | xs | kvs' | t kv]; try discriminate; cbn [key_name];
+        try (rewrite (IHr Htr); reflexivity);
+        try (rewrite (Hv _ Htv); cbn [bind]; rewrite (IHr Htr); reflexivity).
+      destruct b; rewrite (Hv _ Htv); cbn [bind]; rewrite (IHr Htr); reflexivity. }
     rewrite Hgo. reflexivity.
   - discriminate.
 Qed.
@@ -220,7 +228,13 @@ Proof.
                  do (v', ps) <- collect (path ++ [esc_tok ks]) v;
                  do (rest', ps') <- go rest;
                  Ok ((k, v') :: rest', (ps ++ ps')%list)
-             | _ => do (rest', ps') <- go rest; Ok ((k, v) :: rest', ps')
+             | _ =>
+                 match key_name k with
+                 | Some n =>
+                     do (v', ps) <- collect (path ++ [esc_tok n]) v;
+                     do (rest', ps') <- go rest;
+                     Ok ((k, v') :: rest', (ps ++ ps')%list)
+                 | None => do (rest', ps') <- go rest; Ok ((k, v) :: rest', ps') end
              end
          end).
     assert (Hgo : loop (goy kvs) = Ok (map (fun kv : string * json => let '(k, v) := kv in (YStr k, yplain v)) kvs, goe kvs)).
@@ -283,7 +297,10 @@ Proof.
                      match l with
                      | [] => Ok []
                      | (YStr k, v) :: r => do j <- to_json v; do r' <- go r; Ok ((k, j) :: r')
-                     | _ :: _ => Err end) (map (fun kv : string * json => let '(k, v) := kv in (YStr k, yplain v)) kvs) = Ok kvs).
+                     | (k, v) :: r => match key_name k with
+                                      | Some n => do j <- to_json v; do r' <- go r; Ok ((n, j) :: r')
+                                      | None => Err end
+                     end) (map (fun kv : string * json => let '(k, v) := kv in (YStr k, yplain v)) kvs) = Ok kvs).
     { clear Hs Hw. induction IH as [|[k v] r Hv _ IHr]; [reflexivity|]. inversion Hall as [|? ? H1 H2]; subst. cbn [snd fst] in *.
       cbn [map]. rewrite Hv by tauto. cbn [bind]. rewrite (IHr H2). reflexivity. }
     rewrite Hgo. cbn [bind]. rewrite (fold_insert_sorted kvs []); [reflexivity|exact Hs].
@@ -291,8 +308,57 @@ Qed.
 
 (* parse_yaml on the tree of a document built from well-formed claims and any set of tags: the claims come
    back, and the paths are exactly the tagged nodes, nested ones first *)
+(* a document built from well-formed claims has no two keys that coincide once the tags are removed: the keys of
+   every object are strictly sorted, hence distinct *)
+Lemma has_dup_sorted l : StronglySorted slt l -> has_dup l = false.
+Proof.
+  induction l as [|x r IH]; intros Hs; [reflexivity|]. inversion Hs as [|? ? Hr Hx]; subst.
+  cbn [has_dup]. rewrite (IH Hr), orb_false_r.
+  apply not_true_is_false. intros E. apply existsb_exists in E as [y [Hy Ey]]. apply String.eqb_eq in Ey. subst y.
+  rewrite Forall_forall in Hx. exact (slt_irrefl _ (Hx _ Hy)).
+Qed.
+
+Lemma clash_ytree marked : forall j path, jwf j -> clash (ytree marked path j) = false.
+Proof.
+  induction j as [| b | l | s | xs IH | kvs IH] using json_ind'; intros path Hw; try reflexivity.
+  - inversion Hw as [| | | | ? Hall |]; subst. cbn [ytree clash]. clear Hw.
+    generalize 0 as i. induction IH as [|x r Hx _ IHr]; intros i; [reflexivity|].
+    inversion Hall as [|? ? Hjx Hjr]; subst. cbn [existsb]. rewrite (IHr Hjr (S i)), orb_false_r.
+    destruct x as [| b | l | s | ys | kvs].
+    + reflexivity.
+    + reflexivity.
+    + reflexivity.
+    + destruct (marked (path ++ [show_nat i])%list); reflexivity.
+    + apply (Hx (path ++ [show_nat i])%list Hjx).
+    + apply (Hx (path ++ [show_nat i])%list Hjx).
+  - inversion Hw as [| | | | | ? Hs Hall]; subst. cbn [ytree clash].
+    set (goy := fix go (l : list (string * json)) : list (yaml * yaml) :=
+            match l with
+            | [] => []
+            | (k, v) :: r => ((if marked (path ++ [esc_tok k])%list then YTag sd_tag (YStr k) else YStr k), ytree marked (path ++ [esc_tok k])%list v) :: go r
+            end).
+    assert (Hnames : flat_map (fun kv : yaml * yaml => let '(k, _) := kv in match stripped_name k with Some s => [s] | None => [] end) (goy kvs) = map fst kvs).
+    { clear. induction kvs as [|[k v] r IHr]; [reflexivity|]. cbn [goy flat_map map fst]. fold goy. rewrite IHr.
+      destruct (marked (path ++ [esc_tok k])%list); cbn [stripped_name]; [rewrite String.eqb_refl|]; reflexivity. }
+    rewrite Hnames, (has_dup_sorted _ Hs). cbn [orb].
+    clear Hnames Hs Hw. induction IH as [|[k v] r Hv _ IHr]; [reflexivity|].
+    inversion Hall as [|? ? H1 H2]; subst. cbn [snd fst] in *. cbn [goy existsb]. fold goy.
+    rewrite (IHr H2), orb_false_r. apply Hv. tauto.
+Qed.
+
 Theorem parse_yaml_tagged marked j : jwf j ->
   parse_yaml_tree (ytree marked [] j) = Ok (j, epaths marked [] j).
 Proof.
-  intros Hw. unfold parse_yaml_tree. rewrite collect_ytree. cbn [bind]. rewrite to_json_yplain by assumption. reflexivity.
+  intros Hw. unfold parse_yaml_tree. rewrite (clash_ytree marked j [] Hw).
+  rewrite collect_ytree. cbn [bind]. rewrite to_json_yplain by assumption. reflexivity.
 Qed.
+
+(* repairs F25 / F26 at the level of the model: a tag below a scalar key that is not a string is reported under the
+   member name the conversion gives that key, and a key that collides with another one once its tag is removed is an error *)
+Example tag_below_number_key :
+  parse_yaml_tree (YMap [(YStr "sub", YStr "x"); (YNum "1", YMap [(YTag sd_tag (YStr "a"), YStr "b"); (YStr "c", YStr "d")])])
+  = Ok (JObj [("1", JObj [("a", JStr "b"); ("c", JStr "d")]); ("sub", JStr "x")], ["/1/a"]).
+Proof. reflexivity. Qed.
+Example tagged_key_collides :
+  parse_yaml_tree (YMap [(YTag sd_tag (YStr "a"), YMap [(YTag sd_tag (YStr "b"), YNum "1")]); (YStr "a", YNum "2")]) = Err.
+Proof. reflexivity. Qed.
